@@ -136,8 +136,10 @@ theorem nested_failed (fl : Flags) (env : Env) {p : List Step} {s : Schema} {cfg
   | elem e d xs i c p s' c' hget _ ih => exact slice_failed fl env e d xs c (mem_of_getElem? hget) (ih hf)
   | entry e d kvs key c p s' c' hmem _ ih => exact map_failed fl env e d kvs key c hmem (ih hf)
   | deref n s c p s' c' hn _ ih =>
-    rw [decode_ptr fl env n s c hn]
-    exact ih hf
+    have hp := ptr_errs_later fl env n s c hn
+    rcases ih hf with h | h
+    · exact Or.inl (hp.1 h)
+    · exact hp.2.1 h
   | plugin pi alts m name lzy s p s' c' hte hname halt _ ih =>
     apply plugin_rejects_gen fl env pi alts m name lzy s hte hname halt
     rcases ih hf with h | h
@@ -213,8 +215,15 @@ theorem nested_rejected (fl : Flags) (env : Env) {p : List Step} {s : Schema} {c
       exact ⟨(key, c), hmem, h⟩
     · exact R.rejected_of_failed (map_failed fl env e d kvs key c hmem (Or.inr h))
   | deref n s c p s' c' hn _ ih =>
-    rw [decode_ptr fl env n s c hn]
-    exact ih hr
+    have hp := ptr_errs_later fl env n s c hn
+    rcases ih hr with h | h | h
+    · exact Or.inl (hp.1 h)
+    · rcases hp.2.2 h with h' | h'
+      · exact Or.inl h'
+      · exact Or.inr (Or.inl h')
+    · rcases hp.2.1 h with h' | h'
+      · exact Or.inl h'
+      · exact Or.inr (Or.inr h')
   | plugin pi alts m name lzy s p s' c' hte hname halt _ ih =>
     exact R.rejected_of_failed (plugin_rejects_gen fl env pi alts m name lzy s hte hname halt
       (settle_ne_nil_of_rejected (ih hr)))
@@ -291,7 +300,7 @@ theorem value_at (fl : Flags) (env : Env) {p : List Str} {s : Schema} {cfg : Val
     simp only [lookup, stepPtr, find_first fl env kvs hff, hfr]
     exact ih
   | deref n fs kvs nm p s' c' _ ih =>
-    rw [decode_ptr fl env n (.struct fs) (.map kvs) (by intro h; cases h)]
+    rw [decode_ptr fl env n (.struct fs) (.map kvs) (by intro h; cases h) (by intro _ h; cases h)]
     rw [decode_struct_map] at ih ⊢
     simpa [lookup, stepPtr] using ih
 
